@@ -19,7 +19,7 @@ type CustomOpts struct {
 	MaxFaults int
 }
 
-var hookKinds = []string{"extend", "extendExt", "extendErr", "extendCtx", "extendConv", "extendRegex", "method", "methodErr", "mapFunc", "mapFuncErr", "mapNoSource", "underlying", "underlyingMethod", "extendErrCtx", "extendSame", "extendExtCtxRegex", "delegate", "delegateErr", "mapWhole", "mapWholePtr", "underlyingErr", "basicErr"}
+var hookKinds = []string{"extend", "extendExt", "extendErr", "extendCtx", "extendConv", "extendRegex", "method", "methodErr", "mapFunc", "mapFuncErr", "mapNoSource", "underlying", "underlyingMethod", "extendErrCtx", "extendSame", "extendExtCtxRegex", "delegate", "delegateErr", "mapWhole", "mapWholePtr", "underlyingErr", "basicErr", "srcMethodCtx"}
 
 // CustomCase builds one case mixing automatic rules with custom functions.
 func CustomCase(r *rand.Rand, name string, o CustomOpts) *Case {
@@ -55,7 +55,7 @@ func CustomCase(r *rand.Rand, name string, o CustomOpts) *Case {
 	for i := 1; i <= npairs; i++ {
 		kind := hookKinds[r.Intn(len(hookKinds))]
 		if o.Fallible && i == 1 {
-			kind = []string{"extendErr", "methodErr", "mapFuncErr", "extendErrCtx", "delegateErr", "underlyingErr", "basicErr"}[r.Intn(7)]
+			kind = []string{"extendErr", "methodErr", "mapFuncErr", "extendErrCtx", "delegateErr", "underlyingErr", "basicErr", "srcMethodCtx"}[r.Intn(7)]
 		}
 		if o.WrapLevel == "meth" {
 			// wrapping configured on the METHOD: only positions that are converted inline by that method
@@ -223,6 +223,28 @@ func CustomCase(r *rand.Rand, name string, o CustomOpts) *Case {
 					sS.Fields, tS.Fields = append(sS.Fields, F(f, Ptr(Named(bs)))), append(tS.Fields, F(f, Ptr(Named(bt))))
 				}
 			}
+		case "srcMethodCtx":
+			// a method of the source struct whose parameters are contexts, used as the source of a target field
+			mn := fmt.Sprintf("Disp%d", i)
+			param := "c CtxA"
+			if r.Intn(2) == 0 {
+				param = "CtxA" // unnamed parameter
+			}
+			use := ""
+			if strings.HasPrefix(param, "c ") {
+				use = " + len(c.ID)"
+			}
+			S.Methods = append(S.Methods, fmt.Sprintf("func (s S) %s(%s) int { return s.Plain*10 + %d%s }", mn, param, i, use))
+			if r.Intn(2) == 0 {
+				tS.Fields = append(tS.Fields, F(mn, Basic("int")))
+				fields[mn] = vref.FieldSpec{Path: []string{mn}}
+			} else {
+				tf := fmt.Sprintf("From%s", mn)
+				tS.Fields = append(tS.Fields, F(tf, Basic("int")))
+				methLines = append(methLines, "map "+mn+" "+tf)
+				fields[tf] = vref.FieldSpec{Path: []string{mn}}
+			}
+			needCtxA = true
 		case "mapWhole":
 			// map . FIELD | FUNC: the function receives the whole source value
 			fn := fmt.Sprintf("Whole%d", i)
@@ -302,7 +324,7 @@ func CustomCase(r *rand.Rand, name string, o CustomOpts) *Case {
 				tS.Fields = append(tS.Fields, F(f, Named(tid)), F(f+"L", Slice(Named(tid))))
 			}
 		}
-		if strings.HasPrefix(kind, "map") || strings.HasPrefix(kind, "underlying") || kind == "basicErr" {
+		if strings.HasPrefix(kind, "map") || strings.HasPrefix(kind, "underlying") || kind == "basicErr" || kind == "srcMethodCtx" {
 			continue
 		}
 		// positions of the pair inside S / T
